@@ -13,7 +13,7 @@
       certificate and loops for ever: the certificate hypothesis is needed; it is evaluated on every real table.
     LR (Tables/LRTerm.v, Tables/LRValidate.v; faithful model Runtime/LRParser.v):
     - lr_terminates: for a table that passes the safety validator for grammar g, with g certified acyclic
-      (acyclic_ok) and the stack-rank certificate (stack_rank_ok: runs of possibly-empty subtrees on the parser stack are bounded; only goto edges in a checked, closed set E of (state, non-terminal) pairs on which an empty subtree can be pushed count), the run with the EXPLICIT fuel lr_fuel_bound
+      (acyclic_ok) and the stack-rank certificate (stack_rank_ok: runs of possibly-empty subtrees on the parser stack are bounded; only goto edges in a checked, closed set E of (lookahead, state, non-terminal) triples on which an empty subtree can be pushed under that lookahead count; ranks are per lookahead, because no token is shifted while empty subtrees pile up), the run with the EXPLICIT fuel lr_fuel_bound
       never ends OutOfFuel, for every token list; lr_terminates_any_fuel: more fuel gives the same result.
     - lr_terminates_refuted: without the stack-rank certificate the statement is false (a safe but non-LR table
       pushes a nullable non-terminal for ever), so that certificate is a genuine per-table obligation.
@@ -95,7 +95,7 @@ Proof. exact tree_size_bound. Qed.
 
 Theorem C19_lr_terminates :
   forall (g : cfg) (tb : lr_table) (ann : annotation) (nl : list bool) 
-  (rk : list N) (E : list (N * N)) (srk toks : list N),
+  (rk : list N) (E : list etriple) (srk : list (N * list N)) (toks : list N),
   lr_safe_check g tb ann = true ->
   acyclic_ok g nl rk = true ->
   stack_rank_ok g tb nl ann E srk = true ->
@@ -104,7 +104,8 @@ Proof. exact lr_terminates. Qed.
 
 Theorem C19_lr_terminates_any_fuel :
   forall (g : cfg) (tb : lr_table) (ann : annotation) (nl : list bool) 
-  (rk : list N) (E : list (N * N)) (srk toks : list N) (fuel : nat),
+  (rk : list N) (E : list etriple) (srk : list (N * list N)) (toks : list N) 
+  (fuel : nat),
   lr_safe_check g tb ann = true ->
   acyclic_ok g nl rk = true ->
   stack_rank_ok g tb nl ann E srk = true ->
@@ -115,7 +116,7 @@ Proof. exact lr_terminates_any_fuel. Qed.
 
 Theorem C19_lr_terminates_ex :
   forall (g : cfg) (tb : lr_table) (ann : annotation) (nl : list bool) 
-  (rk : list N) (E : list (N * N)) (srk : list N),
+  (rk : list N) (E : list etriple) (srk : list (N * list N)),
   lr_safe_check g tb ann = true ->
   acyclic_ok g nl rk = true ->
   stack_rank_ok g tb nl ann E srk = true ->
